@@ -259,12 +259,19 @@ impl Rollback {
 
         // NOTE: for now, if there is a pending truncate, we ignore everything else.
         if let Some(pending_truncate) = pending_truncate {
-            let rollback_start_live = std::cmp::min(seglog.live_range().0 .0, pending_truncate);
+            // If the truncation removes every live record, the log becomes empty. Records below
+            // the start of the live range have been pruned and must not become live again.
+            let start_live = seglog.live_range().0 .0;
+            let (rollback_start_live, rollback_end_live) = if pending_truncate < start_live {
+                (0, 0)
+            } else {
+                (start_live, pending_truncate)
+            };
             return WriteoutData {
                 rollback_start_live,
-                rollback_end_live: pending_truncate,
+                rollback_end_live,
                 prune_to_new_start_live: None,
-                prune_to_new_end_live: Some(pending_truncate),
+                prune_to_new_end_live: Some(rollback_end_live),
             };
         }
 
